@@ -3,7 +3,7 @@ from . import compile_common as cc
 
 LEVEL_TEXT = (
     "Lean 4 theorems over the compile model for the structural clauses: network id = configured network; script-data "
-    "hash present iff redeemers, auxiliary-data hash iff metadata; no zero (cancelled) mint quantity; withdrawals keyed "
+    "hash present iff redeemers, auxiliary-data hash iff metadata; no zero (cancelled) mint quantity; every native asset an output lists has a quantity in [1, 2^64) (C10_output_quantities_positive); withdrawals keyed "
     "by 29-byte stake-address reward accounts. The byte-level clauses are decided per case on the real payload: the "
     "independent Lean CBOR/Conway reader must parse it and finds no duplicate set member / empty map / empty optional "
     "field; pallas' own decoder must accept it; the reported hash must equal the digest of the body bytes inside the "
@@ -16,9 +16,10 @@ LEVEL_NOTE = (
     "reference are known findings (a de-duplicating fix breaks a pinned hash in the existing suite)."
 )
 PROP = "C10"
-TARGETS = ["Tx3Proofs.C10"]
+TARGETS = ["Tx3Proofs.C10", "Tx3Proofs.C10Outputs"]
 THEOREMS = ["Tx3.C10_network_id", "Tx3.C10_hash_presence", "Tx3.C10_no_zero_mint", "Tx3.rewardAccount_wf",
-            "Tx3.C10_reward_accounts", "Tx3.C10_wf"]
+            "Tx3.C10_reward_accounts", "Tx3.C10_wf",
+    "Tx3.C10_output_quantities_positive"]
 ASSUMPTIONS = [cc.MODEL_NOTE, "script_data_hash value (as opposed to presence) is not recomputed"]
 
 
